@@ -480,7 +480,7 @@ impl<'a> RefDict<'a> {
 // ---------------------------------------------------------------------------------------------
 // Token views of the implementation (black-box accessors)
 
-#[derive(Clone, Debug, PartialEq, Eq, Hash)]
+#[derive(Clone, Debug, PartialEq, Eq, Hash, serde::Serialize, serde::Deserialize)]
 pub struct Tok {
     pub range_char: (usize, usize),
     pub range_byte: (usize, usize),
